@@ -3172,3 +3172,176 @@ func (c *Ctx) fullLoop(rule, key string, fi *FuncInfo, inLoop func(info *types.I
 		c.OK(rule, key, loop.Pos(), "the loop that "+what+" visits every element")
 	}
 }
+
+// ---------------------------------------------------------------------------------------------
+// CARRIED-BUF: a buffer (bytes.Buffer, strings.Builder) or slice declared OUTSIDE a loop over the
+// input items, written inside the loop and also consumed inside it (Bytes/String/len/range, passed
+// on), keeps what earlier items put into it unless it is reset or re-created in the loop: item k
+// is then output together with items 1..k-1.
+func (c *Ctx) carriedBuf(rule string, funcs []*FuncInfo, clause string) (n, nviol int) {
+	isBufType := func(t types.Type) bool {
+		s := t.String()
+		return s == "bytes.Buffer" || s == "strings.Builder" || s == "*bytes.Buffer" || s == "*strings.Builder"
+	}
+	for _, fi := range funcs {
+		if fi.Decl.Body == nil {
+			continue
+		}
+		info := fi.Pkg.TypesInfo
+		ast.Inspect(fi.Decl.Body, func(m ast.Node) bool {
+			rs, ok := m.(*ast.RangeStmt)
+			if !ok {
+				return true
+			}
+			// loops over the items of the input: a channel of trees
+			ch, isChan := info.TypeOf(rs.X).Underlying().(*types.Chan)
+			if !isChan || !strings.HasSuffix(ch.Elem().String(), "tree.Trees") {
+				return true
+			}
+			inner := declaredIn(info, rs.Body)
+			type use struct{ write, read, reset bool }
+			uses := map[types.Object]*use{}
+			get := func(o types.Object) *use {
+				if uses[o] == nil {
+					uses[o] = &use{}
+				}
+				return uses[o]
+			}
+			walkStack(rs.Body, func(q ast.Node, st []ast.Node) bool {
+				id, ok := q.(*ast.Ident)
+				if !ok {
+					return true
+				}
+				v, ok := info.Uses[id].(*types.Var)
+				if !ok || v.IsField() || inner[v] || v.Parent() == fi.Pkg.Types.Scope() || !isBufType(v.Type()) {
+					return true
+				}
+				// method called on it?
+				if len(st) >= 2 {
+					if sel, ok := st[len(st)-1].(*ast.SelectorExpr); ok && unparen(sel.X) == ast.Expr(id) {
+						switch {
+						case strings.HasPrefix(sel.Sel.Name, "Write"):
+							get(v).write = true
+						case sel.Sel.Name == "Reset" || sel.Sel.Name == "Truncate":
+							get(v).reset = true
+						case sel.Sel.Name == "Bytes" || sel.Sel.Name == "String" || sel.Sel.Name == "Len" || sel.Sel.Name == "WriteTo":
+							get(v).read = true
+						}
+						return true
+					}
+				}
+				// passed on / address taken: both a possible write and a read
+				get(v).read = true
+				return true
+			})
+			for v, u := range uses {
+				if !u.write {
+					continue
+				}
+				n++
+				key := funcName(fi.Obj) + "/" + v.Name()
+				switch {
+				case u.read && !u.reset:
+					nviol++
+					c.Violation(rule, key, rs.Pos(), fmt.Sprintf("`%s` is declared before the loop over the input trees, filled and consumed inside it, and never reset there: what is output for the k-th tree also contains what was written for the trees before it", v.Name())).Clause = clause
+				default:
+					c.OK(rule, key, rs.Pos(), "buffer reset in the loop, or only consumed after it")
+				}
+			}
+			return true
+		})
+	}
+	return
+}
+
+// ---------------------------------------------------------------------------------------------
+// GLOBAL-MUT (C11/C03): library packages keep no mutable state in package-level variables: a
+// function of tree / io / support / hashmap ... that stores into a package-level variable (or calls
+// a pointer-receiver method of one, e.g. a shared bytes.Buffer) makes independent calls on
+// unrelated trees interfere when they run in different goroutines.
+func (c *Ctx) globalMut(rule string, pkgRels []string, clause string) (n, nviol int) {
+	for _, fi := range c.AllFuncs(pkgRels...) {
+		if fi.Decl.Body == nil || fi.Obj.Name() == "init" {
+			continue
+		}
+		info := fi.Pkg.TypesInfo
+		scope := fi.Pkg.Types.Scope()
+		isGlobal := func(e ast.Expr) *types.Var {
+			for {
+				switch x := unparen(e).(type) {
+				case *ast.SelectorExpr:
+					if _, isPkg := info.Uses[identOf(x.X)].(*types.PkgName); isPkg {
+						return nil
+					}
+					e = x.X
+					continue
+				case *ast.IndexExpr:
+					e = x.X
+					continue
+				case *ast.StarExpr:
+					e = x.X
+					continue
+				case *ast.Ident:
+					if v, ok := info.Uses[x].(*types.Var); ok && v.Parent() == scope {
+						return v
+					}
+				}
+				return nil
+			}
+		}
+		n++
+		bad := token.NoPos
+		var bv *types.Var
+		how := ""
+		ast.Inspect(fi.Decl.Body, func(m ast.Node) bool {
+			switch x := m.(type) {
+			case *ast.AssignStmt:
+				if x.Tok == token.DEFINE {
+					return true
+				}
+				for _, l := range x.Lhs {
+					if v := isGlobal(l); v != nil && !bad.IsValid() {
+						bad, bv, how = l.Pos(), v, "assigned"
+					}
+				}
+			case *ast.IncDecStmt:
+				if v := isGlobal(x.X); v != nil && !bad.IsValid() {
+					bad, bv, how = x.Pos(), v, "incremented"
+				}
+			case *ast.CallExpr:
+				if sel, ok := unparen(x.Fun).(*ast.SelectorExpr); ok {
+					if g := calleeOf(info, x); g != nil {
+						if sig := g.Type().(*types.Signature); sig.Recv() != nil {
+							if _, ptr := sig.Recv().Type().(*types.Pointer); ptr {
+								if v := isGlobal(sel.X); v != nil && !bad.IsValid() {
+									// addressable value with pointer-receiver method: mutation possible
+									if _, isPtrVar := v.Type().(*types.Pointer); !isPtrVar {
+										bad, bv, how = x.Pos(), v, "modified through "+g.Name()+"()"
+									}
+								}
+							}
+						}
+					}
+				}
+			case *ast.UnaryExpr:
+				if x.Op == token.AND {
+					if v := isGlobal(x.X); v != nil && !bad.IsValid() {
+						bad, bv, how = x.Pos(), v, "handed out by address"
+					}
+				}
+			}
+			return true
+		})
+		if bad.IsValid() {
+			nviol++
+			c.Violation(rule, funcName(fi.Obj)+"/"+bv.Name(), bad, fmt.Sprintf("the package-level variable `%s` is %s in %s: calls of this function on unrelated trees share it, so two of them running in different goroutines corrupt each other's result (and a later call sees what an earlier one left)", bv.Name(), how, funcName(fi.Obj))).Clause = clause
+		}
+	}
+	c.Trivial(rule, "scan", token.NoPos, fmt.Sprintf("%d library functions examined", n))
+	return
+}
+
+func identOf(e ast.Expr) *ast.Ident {
+	id, _ := unparen(e).(*ast.Ident)
+	return id
+}
